@@ -27,14 +27,20 @@ func (p *PgSQLDataEncoderProcessor) ID() string {
 
 // OnColumn encode binary value to text and back. Should be before and after tokenizer processor
 func (p *PgSQLDataEncoderProcessor) OnColumn(ctx context.Context, data []byte) (context.Context, []byte, error) {
-	if len(data) == 0 {
-		return ctx, data, nil
-	}
-
 	columnSetting, ok := encryptor.EncryptionSettingFromContext(ctx)
 	if !ok {
 		// for case when data encrypted with acrastructs on app's side and used without any encryption setting
 		columnSetting = &config.BasicColumnEncryptionSetting{}
+	}
+	if len(data) == 0 {
+		// an empty value of a column without declared data type that came encoded (the hex form of an empty
+		// bytea is `\x`) goes back as it came
+		if _, typed := type_awareness.GetPostgreSQLDataTypeIDEncoders()[columnSetting.GetDBDataTypeID()]; !typed {
+			if encodedValue, ok := base.GetEncodedValueFromContext(ctx); ok {
+				return ctx, encodedValue, nil
+			}
+		}
+		return ctx, data, nil
 	}
 	logger := logging.GetLoggerFromContext(ctx).WithField("column", columnSetting.ColumnName()).WithField("decrypted", base.IsDecryptedFromContext(ctx))
 	columnInfo, ok := base.ColumnInfoFromContext(ctx)
